@@ -16,7 +16,7 @@ CHECKS = {
          "Relations to arrays/groups/ports and Align::Center/Ports are documented unimplemented and excluded.",
          "runtime monitoring: constraint-solution oracle over permuted placement programs; crash isolation", "DESIGN.md 3 C09"),
  "C19": ("fault_enumeration",
-         "Placed gridded libraries go ProtoExporter::export -> ProtoLibImporter::import and are compared cell by cell (outline steps, metals, ordered instances with both reflections, assignments, cuts) with dependency-first export order; then every mandatory part of every cell/instance/assignment/cut of each valid message is removed or invalidated in turn (fault enumeration) and import must return Err, never Ok or panic.",
+         "Placed gridded libraries go ProtoExporter::export -> ProtoLibImporter::import and are compared cell by cell (outline steps, metals, ordered instances with both reflections, assignments, cuts) with dependency-first export order; then every mandatory part of every cell/instance/assignment/cut of each valid message is removed or invalidated in turn (fault enumeration) and import must return Err, never Ok or panic. Re-exporting the imported library must reproduce the first message, and export must work in a second thread while read guards are held on every cell.",
          "Abstracts with ports excluded (import_abstract_port is todo!()).",
          "runtime monitoring: round-trip oracle + message fault enumeration with panic monitor", "DESIGN.md 3 C19"),
 
@@ -25,7 +25,7 @@ CHECKS = {
          "Exact oracle for right-angle orientations only. An Err on a valid library satisfies the statement (counted, non-vacuity threshold). Labels in path end-cap bands and doubly-labelled shapes are not judged.",
          "runtime monitoring: reference flattener oracle + crash isolation for malformed inputs", "DESIGN.md 3 C06"),
  "C07": ("exploration",
-         "Raw libraries (cell DAGs, 8 orientations, rectangles, rectilinear/45-degree/general polygons incl. U/L shapes, Manhattan paths, nets, 1-4 layers x 6 purposes, all four units) are exported with to_gds and re-imported with the same Layers; units, cells, instance multisets and element multisets (layer/purpose numbers, canonical shape, lower-cased net) must be equal; on the exported GdsLibrary every label must lie inside its shape and every path keep exactly its points.",
+         "Raw libraries (cell DAGs, 8 orientations, rectangles, rectilinear/45-degree/general polygons incl. U/L shapes, Manhattan paths, nets, 1-4 layers x 6 purposes, all four units) are exported with to_gds and re-imported with the same Layers; units, cells, instance multisets and element multisets (layer/purpose numbers, canonical shape, lower-cased net) must be equal; on the exported GdsLibrary every label must lie inside its shape and every path keep exactly its points; every fourth library is moved in place and converted a second time; big libraries also go through save -> load.",
          "Shapes never overlap within a cell; rect and 4-vertex axis-aligned polygon identified; layout-only cells.",
          "runtime monitoring: round-trip oracle + boundary observation of the exported GDS", "DESIGN.md 3 C07"),
  "C14": ("exploration",
@@ -79,12 +79,12 @@ CHECKS = {
          "Angle = degrees counter-clockwise, reflection about x applied first (as documented). General angles judged to 0.5+1e-5 units.",
          "runtime monitoring: exact integer-map oracle over exhaustive placement chains", "DESIGN.md 3 C12"),
  "C13": ("exploration",
-         "Exhaustive: every rectangle and every simple polygon with up to 5 (quick) / 6 (thorough) vertices on the 4x4 grid, in every vertex order, queried at all 36 surrounding grid points, plus repeated- and collinear-vertex variants; seeded random polyomino outlines, 45-degree and star-shaped polygons and Manhattan paths queried on/near/far from their boundary. Every contains() answer is compared with exact integer geometry.",
+         "Exhaustive: every rectangle and every simple polygon with up to 5 (quick) / 6 (thorough) vertices on the 4x4 grid, in every vertex order, queried at all 36 surrounding grid points, plus repeated- and collinear-vertex variants; seeded random polyomino outlines, 45-degree and star-shaped polygons and Manhattan paths queried on/near/far from their boundary. Every contains() answer is compared with exact integer geometry, also when several paths are queried in one shuffled stream (answers must not depend on the previous query).",
          "Path end-cap / outer-corner band not judged (raw Path has no end style). Trusted: refs/geom.rs.",
          "runtime monitoring: exact-geometry oracle over exhaustive small shapes + random large ones", "DESIGN.md 3 C13"),
  "C17": ("exploration",
-         "Generic helper: every digraph on 4 nodes (with self-loops) under every full and partial listing, every loop-free 5-node digraph in all orders (thorough), with the hook event trace of every 4-node run checked offline against the orderer's trace specification; embedded orderers (raw DepOrder, to_proto cell order, from_gds import order) on every 4-node DAG in all listings and random DAGs/cyclic graphs to 300 nodes, cyclic ones in isolated child processes.",
-         "Tetris orderers are covered by the tetris-* generators once built. Orderers returning Vec have no error channel: any return on a cycle, or a crash, is a violation (two open known findings).",
+         "Generic helper: every digraph on 4 nodes (with self-loops) under every full and partial listing, every loop-free 5-node digraph in all orders (thorough), with the hook event trace of every 4-node run checked offline against the orderer's trace specification; embedded orderers (raw DepOrder, to_proto cell order, from_gds import order) on every 4-node DAG in all listings and random DAGs/cyclic graphs to 300 nodes, cyclic ones in isolated child processes; gridded-layout orderers (dep_order, proto export order, placer, raw export into an already populated raw library), also while another thread holds a cell's write guard or after a panic poisoned a cell's lock; the thorough tier re-runs the workload under an unoptimised and a plain-release build.",
+         "Orderers returning Vec have no error channel: any return on a cycle, or a crash, is a violation (two open known findings).",
          "runtime monitoring: order validator + offline trace checker over exhaustive small digraphs; crash isolation", "DESIGN.md 3 C17"),
 
  "C15": ("exploration",
